@@ -110,10 +110,11 @@ check("C04", "only complete, well-formed manifests accepted; refusals change not
 check("C07", "referrers responses list exactly the manifests with that subject", "exploration",
       "rapid state machine vs model set {m present : subject(m)=S}; field-exact descriptors; filter header; Link chains; page limits; restart",
       "Randomised model-based search over artifact histories (push by tag/digest, re-push, tag overwrite, delete by tag/digest, subject delete, restart) on both stores with response "
-      "limits from one descriptor to unlimited; every listing (plain, filtered, repeated so that the page cache answers) is followed along its Link chain and compared field by field.",
+      "limits from one descriptor to unlimited; every listing (plain, filtered, repeated so that the page cache answers) is followed along its Link chain and compared field by field. TestC07Faults (vfs build): artifact pushes and deletes on a subject with 1-4 artifacts, each with its k-th reading file-system call failing with EIO "
+      "(k uniform over the reads the same request makes on a copy of the directory, server restarted before each so that everything is loaded anew): acknowledged, undeleted artifacts stay listed once, deleted ones are not listed, also after Close + New.",
       "Trusted: the model; page-size arithmetic re-computed with encoding/json over the same field set. Collections run under a retain-everything policy (GC effects on listings are C05/C06).",
       "DESIGN.md §3 C07",
-      [R("^TestC07$", 20000, 900000, steps=30)])
+      [R("^TestC07$", 20000, 900000, steps=30), R("^TestC07Faults$", 1500, 60000, variant="vfs")])
 
 check("C16", "repositories isolated; storage access stays inside the root", "exploration",
       "rapid state machine on a vfs-instrumented build: per-repository models + file-system path log + sentinel tree outside the root",
